@@ -162,6 +162,10 @@ func (a *UtilArgs) readInputFilePrivKey() (peer.Peer, error) {
 	if err != nil {
 		return nil, err
 	}
+	if key == nil {
+		// no pem block: NewPeer would generate a new random key.
+		return nil, errors.New("no pem private key found")
+	}
 
 	le := a.GetLogger()
 	npeer, err := peer.NewPeer(key)
